@@ -31,3 +31,17 @@ def big_int(prng):
 
 def label_base(prng):
     return prng.choice(LABELS)
+
+
+# attribute names that mean something to networkx / graph code: an implementation that starts honouring one of them
+# ("weight" in degree(), "capacity" in flows, ...) changes behaviour only on graphs that happen to carry it
+ATTR_NAMES = ("weight", "capacity", "label", "id", "name", "color", "key", "length", "cost", "pos", "type", "topology",
+              "joint_degree", "motif_ids", "u", "clique", "CoverLabel")
+
+
+def near(prng, x, lo=0.0, hi=1.0):
+    """A value unequal to x but within float-comparison tolerances of it (1 ulp .. 1e-6 relative)."""
+    import math
+    y = prng.choice((math.nextafter(x, hi), math.nextafter(x, lo), x * (1 + 1e-12), x * (1 - 1e-9), x * (1 + 5e-8),
+                     x * (1 - 9e-7), x + 1e-12, x - 1e-10, x + 3e-7))
+    return min(hi, max(lo, y))
